@@ -103,9 +103,9 @@ func (c ConditionFunction) Evaluate(a interface{}, b interface{}) (bool, error) 
 	}
 	switch c {
 	case ConditionEqual:
-		return reflect.DeepEqual(a, b), nil
+		return valuesEqual(a, b, x, y), nil
 	case ConditionNotEqual:
-		return !reflect.DeepEqual(a, b), nil
+		return !valuesEqual(a, b, x, y), nil
 	case ConditionIncludes:
 		switch x.Kind() {
 		case reflect.Slice:
@@ -173,6 +173,18 @@ func (c ConditionFunction) Evaluate(a interface{}, b interface{}) (bool, error) 
 	}
 	// we should never get here
 	return false, fmt.Errorf("unreachable condition")
+}
+
+// valuesEqual compares two values of the same kind; sets and maps are equal
+// if they hold the same elements, regardless of order or of being nil or empty
+func valuesEqual(a, b interface{}, x, y reflect.Value) bool {
+	switch x.Kind() {
+	case reflect.Slice:
+		return x.Len() == y.Len() && sliceContains(x, y)
+	case reflect.Map:
+		return x.Len() == y.Len() && mapContains(x, y)
+	}
+	return reflect.DeepEqual(a, b)
 }
 
 func sliceContains(x, y reflect.Value) bool {
